@@ -95,7 +95,9 @@ class TorchBackend(BaseBackend):
         # differ, matching the previous torch.tensor() behavior).
         def f(t, y):
             rhs = func(torch.as_tensor(t, dtype=dtype), torch.as_tensor(y, dtype=dtype), *args)
-            return rhs.numpy()
+            # a copy: in-place vector fields return the same `dy` buffer on every call, and scipy's integrators keep
+            # the derivative of the last accepted step across rejected steps
+            return np.array(rhs.numpy())
 
         # call scipy solver
         results = solve_ivp(fun=f, t_span=(t0, T), y0=y, first_step=dt, **kwargs)
